@@ -47,7 +47,12 @@ KNOWN_LIBRARY_DEVIATIONS = {
         "fraction of estimated patterns that are ground-truth patterns and "
         "exceeds 1 when more reference prototypes are matched than there are "
         "estimates.  Minimal input: ref=[[[(0,60),(1,62)]],[[(4,65),(5,67)]]], "
-        "est=[[[(0,60),(1,62)]]] -> library P=2.0 (oracle P=1.0, R=1.0)."),
+        "est=[[[(0,60),(1,62)]]] -> library P=2.0 (oracle P=1.0, R=1.0).  "
+        "Mirror sub-class (two estimates matching one reference, the same "
+        "input with ref and est swapped): library P=0.5, oracle P=1.0 - both "
+        "estimated patterns are ground-truth patterns.  A caller that only "
+        "wants the uncontroversial part should compare on inputs where the "
+        "two counts are equal."),
     "pattern.*/occurrence-not-a-point-set": (
         "Predicate: some occurrence lists the same (onset, midi) pair twice "
         "(symbolic_ref.pattern_inputs_are_point_sets() is False).  The "
@@ -75,6 +80,15 @@ KNOWN_LIBRARY_DEVIATIONS = {
         "of MI and H happen to coincide and NaN otherwise (NaN for n = 2, 4, "
         "13; 1.0 for the other n <= 40) - the result depends on n only "
         "through rounding."),
+    "segment.mutual_information/AMI-ill-conditioned": (
+        "Predicate: cluster_ref.ami_denominator(ref, est) = max(H) - E[MI] is "
+        "small (nearly every frame its own cluster on both sides).  Not a "
+        "wrong formula but lost digits: the library's log-gamma evaluation of "
+        "the hypergeometric weights carries ~1e-10 absolute error in AMI at "
+        "denominator 0.08, n = 300 and 1e-9 at denominator 0.016, n = 349 "
+        "(oracle within 4e-13 of 60-digit arithmetic).  Does not occur at the "
+        "sizes of this self-test (n <= 40); use tolerance 1e-9 + 1e-12 * n / "
+        "denominator."),
     "hierarchy/float-frame-index": (
         "Predicate: hierarchy_ref.float_frame_hazard([ref, est], frame_size, "
         "window) is True: frame_size is not a short binary fraction (e.g. the "
@@ -83,13 +97,20 @@ KNOWN_LIBRARY_DEVIATIONS = {
         "one less than floor(t / frame_size), because fl(k*frame_size) / "
         "frame_size rounds below k (0.3/0.1 = 2.9999999999999996).  The "
         "affected boundary lands one frame early although it is nowhere near "
-        "the frame grid.  Minimal input: _round(0.35, 0.1)/0.1 -> 2.999.. -> "
-        "frame 2 instead of 3; about 3.5% of uniformly random times with "
-        "frame_size=0.1; window=15.0, frame_size=0.1 gives 149 frames (there "
-        "the exact value is also 149 because float(0.1) > 1/10)."),
+        "the frame grid: _round(4.35, 0.1)/0.1 = 42.99999999999999 -> frame 42 "
+        "instead of 43 (also t in [8.1,8.2), [8.6,8.7), [9.1,9.2), [16.2,16.3) "
+        "...; about 3.5% of uniformly random times with frame_size=0.1).  "
+        "Minimal input: tmeasure([[[0,4.75]],[[0,4.35],[4.35,4.75]]], "
+        "[[[0,4.75]],[[0,0.25],[0.25,4.75]]], window=None, frame_size=0.1) -> "
+        "library (0.014399, 0.006104, 0.008573), oracle (0.009585, 0.004972, "
+        "0.006547).  (window=15.0, frame_size=0.1 gives 149 window frames in "
+        "the library and in exact arithmetic alike, because float(0.1) > 1/10; "
+        "the oracle reports margin ~8e-16 for it when the window matters.)"),
     "hierarchy/single-level-not-validated": (
         "Predicate: a hierarchy with exactly one level whose first boundary "
-        "is not 0.  The documentation promises ValueError 'If any "
+        "is not 0 (more generally: a one-level hierarchy with any defect the "
+        "documented validation rejects - negative times, non-positive "
+        "durations).  The documentation promises ValueError 'If any "
         "segmentation does not start at 0'; the library validates levels "
         "2.. against level 1 only, so a one-level hierarchy is never "
         "checked and frames are indexed from time 0 into a matrix sized for "
@@ -637,6 +658,39 @@ def test_hierarchy_decimal(rng, n_cases=150):
                  lambda: _hier_class(ref_i, est_i, 0.1, window), show)
 
 
+def test_hierarchy_offlattice(rng, n_per_size=70):
+    """boundaries with three decimals (not on any frame lattice): for short
+    binary-fraction frame sizes the rounding is exact in floating point, so
+    the margin is inf and the results must agree; for 0.1 / 0.3 every
+    disagreement must be explained by float_frame_hazard()."""
+    Hm = mir_eval.hierarchy
+
+    def hier(end, n_levels):
+        out, cuts = [], set()
+        for _ in range(n_levels):
+            cuts = cuts | {round(rng.uniform(0, end), 3) for _ in range(rng.randint(0, 3))}
+            b = [0.0] + sorted(x for x in cuts if 0 < x < end) + [end]
+            out.append(np.array([[b[i], b[i + 1]] for i in range(len(b) - 1)]))
+        return out
+
+    for fs in (0.25, 0.5, 0.75, 0.1, 0.3):
+        for _ in range(n_per_size):
+            end = round(rng.uniform(1, 6), 3)
+            ref_i = hier(end, rng.randint(1, 3))
+            est_i = hier(end, rng.randint(1, 3))
+            window = rng.choice([None, 15.0, 1.0, 2.5])
+            transitive = rng.random() < .5
+            show = lambda: "ref=%r est=%r transitive=%r window=%r frame_size=%r" % (  # noqa
+                [x.tolist() for x in ref_i], [x.tolist() for x in est_i],
+                transitive, window, fs)
+            T.record("hierarchy.tmeasure[off-lattice, fs=%g]" % fs,
+                     _call(Hm.tmeasure, ref_i, est_i, transitive=transitive,
+                           window=window, frame_size=fs),
+                     _call(H.tmeasure, ref_i, est_i, transitive=transitive,
+                           window=window, frame_size=fs),
+                     lambda: _hier_class(ref_i, est_i, fs, window), show)
+
+
 def test_hierarchy_unvalidated(rng, n_cases=40):
     """single-level hierarchies that do not start at 0"""
     Hm = mir_eval.hierarchy
@@ -658,13 +712,11 @@ def main():
     t0 = time.time()
     rng = random.Random(20240607)
     steps = [test_tempo, test_key, test_alignment, test_pattern, test_cluster,
-             test_hierarchy, test_hierarchy_decimal, test_hierarchy_unvalidated]
+             test_hierarchy, test_hierarchy_decimal, test_hierarchy_offlattice,
+             test_hierarchy_unvalidated]
     for step in steps:
         t1 = time.time()
-        if step is test_key:
-            step(rng)
-        else:
-            step(rng)
+        step(rng)
         print("  [%s: %.1f s]" % (step.__name__, time.time() - t1), file=sys.stderr)
     bad = T.report()
     print()
